@@ -241,7 +241,17 @@ class ExcFlow:
                     stack.extend(ast.iter_child_nodes(n))
                     continue
                 target = n.exc.func if isinstance(n.exc, ast.Call) else n.exc
-                k = self.key(self.repo.resolve_expr(fn.module, target, fn.cls))
+                r0 = self.repo.resolve_expr(fn.module, target, fn.cls) if not (isinstance(target, ast.Attribute) and isinstance(target.value, ast.Name) and target.value.id in ("self", "cls")) else (self.repo.lookup_method(fn.cls, target.attr) if fn.cls is not None else None)
+                if isinstance(r0, FuncInfo) and isinstance(n.exc, ast.Call):
+                    # `raise helper(...)`: the helper builds the exception - its class is what the helper returns
+                    made = self._returned_classes(r0)
+                    if made:
+                        for c in made:
+                            if not self.suppress_explicit(fn, n, c):
+                                out.append((c, n, norm(n)[:80]))
+                        stack.extend(ast.iter_child_nodes(n))
+                        continue
+                k = self.key(r0)
                 if k is None:
                     if isinstance(target, ast.Name):
                         # raising a local variable: type from inference
@@ -254,6 +264,34 @@ class ExcFlow:
                 if not self.suppress_explicit(fn, n, k):
                     out.append((k, n, norm(n)[:80]))
             stack.extend(ast.iter_child_nodes(n))
+        return out
+
+    def _returned_classes(self, fn: FuncInfo, depth: int = 0) -> List[Exc]:
+        """classes of the exception objects a factory helper returns (from its return statements / annotation)"""
+        out: List[Exc] = []
+        for r in ast.walk(fn.node):
+            if isinstance(r, ast.Return) and r.value is not None:
+                v = r.value
+                tgt = v.func if isinstance(v, ast.Call) else v
+                rr = self.repo.resolve_expr(fn.module, tgt, fn.cls) if isinstance(tgt, (ast.Name, ast.Attribute)) else None
+                k = self.key(rr)
+                if k is not None and (isinstance(rr, ClassInfo) or isinstance(rr, External)):
+                    out.append(k)
+                elif isinstance(rr, FuncInfo) and depth < 2:
+                    out.extend(self._returned_classes(rr, depth + 1))
+                else:
+                    return []
+        if not out and fn.node.returns is not None:
+            ann = fn.node.returns
+            if isinstance(ann, ast.Constant) and isinstance(ann.value, str):
+                try:
+                    ann = ast.parse(ann.value, mode="eval").body
+                except SyntaxError:
+                    return []
+            rr = self.repo.resolve_expr(fn.module, ann, fn.cls) if isinstance(ann, (ast.Name, ast.Attribute)) else None
+            k = self.key(rr)
+            if k is not None:
+                out.append(k)
         return out
 
     @staticmethod
